@@ -22,7 +22,9 @@ RULE = ("random programs of 5-40 events over objects drawn from {Operator, SelfA
         "Hamiltonians and SelfAdjointOperators and are themselves written between visits (element writes through the managed array, assignment, "
         "remove/subtract/recover_cutoff_coupling, Operator.__add__), visited with and without being read or protected ('revisit' programs); objects "
         "extracted with at(t) from evolutions and evolution superoperators are tracked next to their source; the repository's own unit tests run in-process under "
-        "the frame-level leak detector (every library frame must return with the basis stack it was entered with). "
+        "the frame-level leak detector (every library frame must return with the basis stack it was entered with); 24 library computations "
+        "(propagation with seven kinds of generator, tensor actions, evolution superoperator, Redfield-family builders, rates, thermal states, "
+        "dipole operator) made inside a context on objects made outside vs the same made outside; protected context operators entered from other levels. "
         "distinct = (event-kind sequence, nesting profile, exception class); non-trivial iff at least one object was actually transformed (read inside a "
         "context whose transformation is not the identity) before the final check.")
 ASSUMPTIONS = ["the transformation matrix the library puts on its stack is *validated* (orthogonal; diagonalises the context operator with ascending eigenvalues) "
@@ -31,7 +33,12 @@ ASSUMPTIONS = ["the transformation matrix the library puts on its stack is *vali
                "managed-array property accessors): in-place transformations are not atomic and the statement promises restoration when the context is *left*",
                "protecting an object after it was transformed inside a context keeps the inner representation by documented semantics: only the idiom "
                "protect-before-entry / unprotect-after-exit is generated",
-               "StateVector objects are not in the statement's list"]
+               "StateVector objects are not in the statement's list",
+               "'library-inside-context' covers computations whose inputs are all basis managed (tensors and states made outside, the "
+               "aggregate's Redfield-family builders which use the protect/enter idiom).  Not claimed inside a context, because their inputs are "
+               "unmanaged site-basis data by design: PureDephasing (documented 'intentionally not basis managed'), constructors fed by a "
+               "SystemBathInteraction (LindbladForm, direct RedfieldRelaxationTensor: 'THIS ASSUMES WE ARE IN SITE BASIS'), Foerster-type builders "
+               "('done strictly in site basis'), impulsive excitation; spectrum calculators refuse to run inside a context"]
 MIN_NONTRIVIAL = {"quick": 150, "thorough": 1000}
 REQUIRED_CLAUSES = ["context-operator-diagonal-ascending", "presented-in-context-basis", "scalars-invariant", "restored-after-exit", "bookkeeping-restored"]
 TIMEOUT = {"quick": 900, "thorough": 3400}
@@ -61,6 +68,13 @@ def gen_cases(tier, rng):
                       "first": str(rng.choice(["unread", "protected", "read"])), "write": [str(w) for w in rng.choice(pool, size=int(rng.integers(1, 4)))], "cost": 0.5})
     from qrv import repotests
     cases.extend(repotests.gen_cases(tier))
+    # library computations carried out inside a context on objects made outside: results (read after the context is left) equal those of the
+    # same computation made outside
+    from qrv import build as _b
+    for i in range(8 if tier == "quick" else 60):
+        N = 2 + i % 2
+        sysd = _b.gen_system(rng, N=N, Nt=int(rng.integers(80, 140)), dt=1.0, shared_bath=False, dipoles=True)
+        cases.append({"cls": "library-inside-context", "sys": sysd, "seed": int(rng.integers(1 << 30)), "ctxop": ["own", "same-data", "random"][i % 3], "cost": 12})
     return cases
 
 
@@ -180,7 +194,125 @@ def present(o):
     return numpy.array(o.obj.data)
 
 
+def library_inside_context(case, ctx):
+    import quantarhei as qr
+    from quantarhei import qm
+    from qrv import build, tensors
+    rng = numpy.random.default_rng(case["seed"])
+    desc = case["sys"]
+    CM = 1.8836515673088532e-4
+    J = numpy.abs(numpy.triu(numpy.array(desc["J"])))
+    nz = numpy.unique(J[J > 0])
+    jc = (0.5 * (nz[0] + nz[-1]) if len(nz) >= 2 else (1.5 * nz[0] if len(nz) == 1 else 10.0)) * CM
+    out = io.StringIO()
+
+    def mk():
+        """everything the computations need, made OUTSIDE any context"""
+        agg, t, cfs = build.make_aggregate(desc)
+        H = agg.get_Hamiltonian()
+        dim = H.dim
+        r = numpy.zeros((dim, dim), dtype=complex)
+        r[1, 1], r[2, 2], r[1, 2], r[2, 1] = 0.6, 0.4, 0.2 + 0.1j, 0.2 - 0.1j
+        S = {"agg": agg, "t": t, "H": H, "rho": qr.ReducedDensityMatrix(data=r), "ts": qr.TimeAxis(0.0, 15, 2.0)}
+        S["R"], S["hR"] = agg.get_RelaxationTensor(t, relaxation_theory="stR")
+        S["Ro"], S["hRo"] = agg.get_RelaxationTensor(t, relaxation_theory="stR", as_operators=True)
+        S["Rtd"], S["hRtd"] = agg.get_RelaxationTensor(t, relaxation_theory="stR", time_dependent=True)
+        S["Rf"], S["hRf"] = agg.get_RelaxationTensor(t, relaxation_theory="stF")
+        S["Rc"], S["hRc"] = agg.get_RelaxationTensor(t, relaxation_theory="cRF", coupling_cutoff=jc)
+        K = qm.ProjectionOperator(1, 2, dim=dim)
+        S["L"] = qm.LindbladForm(H, qm.SystemBathInteraction(sys_operators=[K], rates=[1.0 / 150.0]), as_operators=False)
+        G = numpy.full((dim, dim), 0.002)
+        numpy.fill_diagonal(G, 0.0)
+        S["pd"] = qm.PureDephasing(drates=G, dtype="Lorentzian")
+        # objects that have already been used outside
+        S["eU"] = qr.EvolutionSuperOperator(qr.TimeAxis(0.0, 4, 6.0), S["hR"], S["R"])
+        S["eU"].set_dense_dt(3)
+        S["eU"].calculate(show_progress=False)
+        S["prop"] = qm.ReducedDensityMatrixPropagator(S["ts"], S["hR"], S["R"])
+        S["prop"].propagate(S["rho"])
+        S["propo"] = qm.ReducedDensityMatrixPropagator(S["ts"], S["hRo"], S["Ro"])
+        S["propo"].propagate(S["rho"])
+        return S
+
+    def obs(o):
+        if isinstance(o, numpy.ndarray):
+            return o
+        if getattr(o, "as_operators", False):
+            return tensors.tensor_by_apply(o, o.Km.shape[1])
+        return numpy.array(o.data)
+
+    comps = [
+        ("propagate(stR tensor)", lambda S: qm.ReducedDensityMatrixPropagator(S["ts"], S["hR"], S["R"]).propagate(S["rho"])),
+        ("propagate(stR operators, Nref=2)", lambda S: qm.ReducedDensityMatrixPropagator(S["ts"], S["hRo"], S["Ro"]).propagate(S["rho"], Nref=2)),
+        ("propagate(TD Redfield)", lambda S: qm.ReducedDensityMatrixPropagator(S["t"], S["hRtd"], S["Rtd"]).propagate(S["rho"])),
+        ("propagate(Foerster tensor)", lambda S: qm.ReducedDensityMatrixPropagator(S["ts"], S["hRf"], S["Rf"]).propagate(S["rho"])),
+        ("propagate(Redfield-Foerster tensor)", lambda S: qm.ReducedDensityMatrixPropagator(S["ts"], S["hRc"], S["Rc"]).propagate(S["rho"])),
+        ("propagate(Lindblad)", lambda S: qm.ReducedDensityMatrixPropagator(S["ts"], S["H"], S["L"]).propagate(S["rho"])),
+        ("propagate(no relaxation)", lambda S: qm.ReducedDensityMatrixPropagator(S["ts"], S["H"]).propagate(S["rho"])),
+        ("tensor.apply(rho)", lambda S: S["R"].apply(S["rho"])),
+        ("operator-form tensor.apply(rho)", lambda S: S["Ro"].apply(S["rho"])),
+        ("EvolutionSuperOperator.calculate", None),
+        ("EvolutionSuperOperator made outside: apply('all')", lambda S: S["eU"].apply("all", S["rho"])),
+        ("EvolutionSuperOperator made outside: apply(list)", lambda S: S["eU"].apply([0.0, 6.0, 12.0], S["rho"])),
+        ("EvolutionSuperOperator made outside: apply(t)", lambda S: S["eU"].apply(12.0, S["rho"])),
+        ("EvolutionSuperOperator made outside: at(t)", lambda S: S["eU"].at(6.0)),
+        ("propagator used outside before: propagate", lambda S: S["prop"].propagate(S["rho"])),
+        ("operator-form propagator used outside before: propagate", lambda S: S["propo"].propagate(S["rho"])),
+        ("get_RelaxationTensor(stR)", lambda S: S["agg"].get_RelaxationTensor(S["t"], relaxation_theory="stR")[0]),
+        ("get_RelaxationTensor(stR, operators)", lambda S: S["agg"].get_RelaxationTensor(S["t"], relaxation_theory="stR", as_operators=True)[0]),
+        ("get_RelaxationTensor(stR, secular)", lambda S: S["agg"].get_RelaxationTensor(S["t"], relaxation_theory="stR", secular_relaxation=True)[0]),
+        ("get_RelaxationTensor(stR, time dependent)", lambda S: S["agg"].get_RelaxationTensor(S["t"], relaxation_theory="stR", time_dependent=True)[0]),
+        ("get_RedfieldRateMatrix", lambda S: numpy.array(S["agg"].get_RedfieldRateMatrix().data)),
+        ("get_DensityMatrix(thermal)", lambda S: S["agg"].get_DensityMatrix(condition_type="thermal", temperature=300.0)),
+        ("get_DensityMatrix(thermal_excited_state)", lambda S: S["agg"].get_DensityMatrix(condition_type="thermal_excited_state", temperature=300.0)),
+        ("get_TransitionDipoleMoment", lambda S: S["agg"].get_TransitionDipoleMoment()),
+    ]
+
+    def esuper(S):
+        eU = qr.EvolutionSuperOperator(qr.TimeAxis(0.0, 4, 6.0), S["hR"], S["R"])
+        eU.set_dense_dt(3)
+        eU.calculate(show_progress=False)
+        return {"U": eU, "applied": eU.apply("all", S["rho"]), "at": eU.at(12.0)}
+
+    for name, f in comps:
+        if f is None:
+            f = esuper
+        try:
+            with ctx.lib("library computation outside / inside a context: " + name, mechanism=None):
+                with contextlib.redirect_stdout(out):
+                    r1 = f(mk())
+                    o1 = {k: obs(v) for k, v in (r1.items() if isinstance(r1, dict) else [("result", r1)])}
+                    S2 = mk()
+                    if case["ctxop"] == "own":
+                        Kop = S2["H"]
+                    elif case["ctxop"] == "same-data":
+                        Kop = qr.Hamiltonian(data=numpy.array(S2["H"].data))
+                    else:
+                        Kop = qm.SelfAdjointOperator(data=tensors.random_sao(rng, S2["H"].dim))
+                    with qr.eigenbasis_of(Kop):
+                        r2 = f(S2)
+                    o2 = {k: obs(v) for k, v in (r2.items() if isinstance(r2, dict) else [("result", r2)])}
+        except Exception as e:
+            if type(e).__name__ == "LibRaised":
+                continue
+            raise
+        for k in o1:
+            okshape = o1[k].shape == o2[k].shape
+            ctx.require("scalars-invariant", okshape, {"what": "library computation inside a context", "computation": name, "part": k, "why": "shape"})
+            if okshape:
+                sc = max(float(numpy.max(numpy.abs(o1[k]))), 1e-300)
+                ctx.check("scalars-invariant", float(numpy.max(numpy.abs(o1[k] - o2[k]))), 1e-9 * sc,
+                          {"what": "library computation made inside a context (objects made outside; result read after the context is left) vs made outside",
+                           "computation": name, "part": k, "context_operator": case["ctxop"], "N": desc["N"]})
+        ctx.sub(("lib-inside", name, case["ctxop"]), nontrivial=True)
+        ctx.event("library_computations_inside_a_context")
+    ctx.key(("library-inside-context", case["ctxop"], desc["N"], case["seed"]))
+    ctx.nontrivial(True)
+
+
 def run_case(case, ctx):
+    if case["cls"] == "library-inside-context":
+        return library_inside_context(case, ctx)
     if case["cls"] == "repo-tests":
         from qrv import repotests
         repotests.run_module(case, ctx, ("basis_stack", "n_basis_transformations", "_in_eigenbasis_of_context"), "bookkeeping-restored", "frame-leaks-basis-state:")
